@@ -55,6 +55,10 @@ func genC05(t *rapid.T) *c05Case {
 		}
 	}
 	cs := &c05Case{DS: ds, Layout: gen.GenLayout(t, len(ds.Events))}
+	if rapid.IntRange(0, 2).Draw(t, "staggered") > 0 {
+		// block- and segment-level time windows that overlap and nest
+		gen.StaggerTimestamps(t, ds.Events, cs.Layout)
+	}
 	names, _ := gen.FilterColumns(ds)
 	n := len(ds.Events)
 	nq := rapid.IntRange(2, pt.Scale(6, 10)).Draw(t, "nQueries")
